@@ -292,6 +292,8 @@ def run_failpoints(ctx, rng, spec, root):
         ctx.extra['failpoint_sites_%s_%s' % (spec['fmt'], entry)] = len(first)
         targets = sorted(first.values())
         targets += [rng.randint(1, len(seq)) for _ in range(spec['random'])]
+        if spec.get('only_site'):
+            targets = [first[spec['only_site']]] if spec['only_site'] in first else []
         for n in targets:
             fp.arm(fail_at=n)
             try:
@@ -319,7 +321,39 @@ def run_shard(spec, ctx):
 
 
 def replay(case, ctx):
-    ctx.inconclusive_because('C11 faults are enumerated deterministically: rerun the check (case: %r)' % (case,))
+    """Re-delivers the recorded fault (same injector, index / site, format, destination state, entry point) on a fresh
+    destination and cart and applies the snapshot oracle."""
+    import random
+    from pico8.game import file as p8file
+    from pico8.lua import lua
+    rng = random.Random(7)
+    root = tempfile.mkdtemp(prefix='vf-c11-')
+    fsmon.install()
+    try:
+        fmt, exists, inj = case.get('fmt', 'p8'), case.get('exists', True), case['injector']
+        entry = case.get('entry', 'file')
+        dest = Dest(ctx, rng, fmt, exists, root)
+        g = new_game(rng)
+        call = (lambda: p8file.to_file(g, dest.path)) if entry == 'file' else cli_call(entry, dest, root)
+        if inj == 'stream':
+            with faults.StreamFaultPatch(fmt_class(fmt), case['k']):
+                attempt(ctx, dest, call, case, 'stream')
+        elif inj in ('lua_writer', 'unparseable_output'):
+            W = faults.failing_writer_cls(getattr(lua, case['base']), case.get('k', 1), garbage=inj == 'unparseable_output')
+            attempt(ctx, dest, lambda: p8file.to_file(g, dest.path, lua_writer_cls=W), case, inj)
+        elif inj == 'section':
+            orig = getattr(g, case['section'])
+            setattr(g, case['section'], faults.FailingSection(orig, case['k']))
+            attempt(ctx, dest, call, case, 'section')
+        elif inj == 'png_encoder':
+            with faults.PngWriterFault(case['k']):
+                attempt(ctx, dest, call, case, 'png_encoder')
+        elif inj == 'failpoint':
+            spec = {'fmt': fmt, 'exists': exists, 'entry': entry, 'random': 0, 'only_site': tuple(case['site'])}
+            shutil.rmtree(dest.dir, ignore_errors=True)
+            run_failpoints(ctx, rng, spec, root)
+    finally:
+        shutil.rmtree(root, ignore_errors=True)
 
 
 def gates(m, tier):
